@@ -255,7 +255,7 @@ fn no_hook_violation(prop: Prop, digest: &str) -> Violation {
         .lines()
         .next()
         .filter(|l| l.contains("panicked at"))
-        .map(|l| l.split("panicked at").nth(1).unwrap_or("").trim().split(':').next().unwrap_or("").trim_start_matches("/repo/").to_string())
+        .map(|l| runner::repo_relative(l.split("panicked at").nth(1).unwrap_or("").trim().split(':').next().unwrap_or("")))
         .unwrap_or_else(|| "unknown".into());
     Violation {
         prop: if prop == Prop::C15 { Prop::C15 } else { Prop::C07 },
@@ -450,7 +450,7 @@ pub fn minimise(prop: Prop, tier: Tier, f: &Found, budget: usize) -> (Vec<u32>, 
     let mut marks = f.marks.clone();
     let mut used = 0usize;
     let t0 = Instant::now();
-    let over = |used: usize| used >= budget || t0.elapsed().as_secs() > 90;
+    let over = |used: usize| used >= budget || t0.elapsed().as_secs() > 60;
 
     // confirm reproducibility first
     let r = fails_same(prop, tier, &[best.clone()], sig);
@@ -755,10 +755,10 @@ pub fn check_main(prop: Prop, tier: Tier, seed: u64) -> i32 {
                             stats.bump("runs.truncated-by-foreign-violation");
                             stats.bump(&format!("foreign.{}.{}", v.prop.id(), v.class));
                         }
-                        if aborts < 40 && run + stride < total {
+                        if aborts < 1000 && run + stride < total {
                             pending.push((run + stride, stride));
-                        } else if aborts >= 40 {
-                            stats.bump("batch.truncated-after-40-aborts");
+                        } else if aborts >= 1000 {
+                            stats.bump("batch.truncated-after-1000-aborts");
                         }
                     } else {
                         harness.push(format!("worker died before starting a run; stderr tail:\n{}", w.stderr_tail));
@@ -793,6 +793,7 @@ pub fn check_main(prop: Prop, tier: Tier, seed: u64) -> i32 {
     for v in violations {
         by_sig.entry(v.signature.clone()).or_default().push(v);
     }
+    let t_min = Instant::now();
     let mut reported = 0usize;
     let mut unlisted = 0usize;
     let mut suppressed = 0u64;
@@ -811,7 +812,9 @@ pub fn check_main(prop: Prop, tier: Tier, seed: u64) -> i32 {
         }
         // minimise the shortest tape of the group
         let f = group.iter().min_by_key(|f| f.tape.len()).unwrap();
-        let (tape, used) = minimise(prop, tier, f, 400);
+        // 400 candidate executions per signature, but at most ~150 s of minimisation per invocation
+        let budget = if t_min.elapsed().as_secs() > 150 { 1 } else { 400 };
+        let (tape, used) = minimise(prop, tier, f, budget);
         let path = write_replay(prop, tier, seed, f, &tape);
         println!("violation {} ({} runs, first run {}; tape {} -> {} choices after {} candidate executions)", sig, group.len(), f.run, f.tape.len(), tape.len(), used);
         println!("  {}", f.detail.lines().next().unwrap_or(""));
@@ -939,6 +942,36 @@ pub fn dump_main(prop: Prop, tier: Tier, seed: u64, run: u64, file: &str) -> i32
     let mut stats = Stats::default();
     let _ = runner::run_one(prop, tier, tape, &mut stats, &env);
     0
+}
+
+/// in-process batch without child processes, plugin or files: the form in which the core
+/// scenarios run under Miri (`cargo +nightly miri run -- inproc <ID> <tier> <seed> <start> <n>`)
+pub fn inproc_main(prop: Prop, tier: Tier, seed: u64, start: u64, n: u64) -> i32 {
+    runner::install_hook();
+    let env = Env { plugin: None, plugin_path: String::new() };
+    let mut stats = Stats::default();
+    let mut bad = 0;
+    for i in start..start + n {
+        let r = runner::run_one(prop, tier, Tape::record(mix(seed, prop), i), &mut stats, &env);
+        match &r.result {
+            RunResult::Violation(v) => {
+                println!("run {i}: violation {} :: {}", v.signature(), v.detail);
+                println!("VIOLATION property={} replay=inproc:{}:{}", prop.id(), seed, i);
+                bad += 1;
+            }
+            RunResult::Harness(h) if !h.contains("plugin not loaded") => {
+                println!("run {i}: harness error {h}");
+                return 2;
+            }
+            _ => {}
+        }
+    }
+    println!("inproc {}: {} runs, {} positions, {} violations", prop.id(), n, stats.counters.get("positions").copied().unwrap_or(0), bad);
+    if bad > 0 {
+        1
+    } else {
+        0
+    }
 }
 
 /// determinism protocol helper: print one observation hash per run
